@@ -41,7 +41,11 @@ class CaseCtx:
         self.files = {}
         # signature style varied deterministically per layout shape: every parameter on the def line, or a
         # wrapped signature with one parameter per line BELOW the def line
-        self.style = "wrap" if sum(map(ord, shape_key(case))) % 2 else None
+        hs = sum(map(ord, shape_key(case)))
+        self.style = "wrap" if hs % 2 else None
+        if os.environ.get("VERIF_STYLES", "1") == "1":
+            # further spellings, varied per shape: fixtures renamed with name=, async generator fixtures, CRLF line endings
+            self.style = ["", "wrap", "alias", "async", "crlf", "wrap+alias", "async+crlf", "wrap+alias+async+crlf"][hs % 8] or None
         for slot, mod in case["ws"].items():
             self.files[slot] = R.render_checked(UNI, slot, mod, self.style)
 
